@@ -266,6 +266,10 @@ func checkC14(r *core.Run) {
 	}
 	ruleShardPledgeBooked(r)
 	ruleReleaseTerm(r)
+	r.Rule("T-settle-then-remove: shard records are removed only after the loop that settles all orders of the model (Terminate, force-push)")
+	ruleRemoveAfterSettle(r, "T-settle-then-remove")
+	r.Rule("T-lost-update: no stale local copy of a record is written back after a helper stored that record")
+	ruleLostUpdate(r, "T-lost-update")
 	r.Rule("T-accum-scope: in Renew the pool's total is moved by a per-data-model total that is reset for every data model (not carried across the data-model loop)")
 	ruleAccumScope(r, "T-accum-scope", "sao/keeper.msgServer.Renew")
 	r.Rule("T-book-pair: a shard is booked on a market worker (WorkerAppend) only as a first booking (its status is not yet completed) or after a WorkerRelease on every path (re-booking / hand-over): no shard is counted twice")
@@ -368,6 +372,8 @@ func checkC06(r *core.Run) {
 		coupleSame(r, "T-couple", h, "node/types.Pledge.TotalStorage", "node/types.Pool.TotalStorage", false)
 		coupleSame(r, "T-couple", h, "node/types.Pledge.TotalStoragePledged", "node/types.Pool.TotalPledged.Amount", true)
 	}
+	r.Rule("T-replica-dec: the give-up branch of the timeout handler lowers Order.Replica by the count of shards still waiting (the refund out of the market escrow is price x size x duration per given-up replica)")
+	ruleReplicaGiveUp(r)
 	r.Rule("T-refund-class: in market.Withdraw the full-duration price leaves the market escrow only for a waiting shard, the remaining-term price only for a completed shard of this order (no payout without a matching booked entitlement)")
 	ruleWithdrawClass(r)
 }
@@ -473,6 +479,21 @@ func ruleBooked(r *core.Run) {
 			r.Discharge("T-booked", key, r.P.FuncPos(fn), "the coin persisted as Shard.Pledge is the coin transferred, or the balance transferred plus a debt of (pledge − balance)")
 		} else {
 			r.Violate("T-booked", key, r.P.FuncPos(fn), "ShardPledge persists a collateral amount that differs from the coins it takes (plus the debt it records)")
+		}
+	}
+	// path clause: no success return of ShardPledge is reachable without a transfer into the node escrow
+	if fn := r.Func("T-booked", "node/keeper.Keeper.ShardPledge"); fn != nil {
+		take := blocksCalling(r, fn, "node/types.BankKeeper.SendCoinsFromAccountToModule")
+		succ := successBlocks(r, fn)
+		key := core.Key("T-booked", "node/keeper.Keeper.ShardPledge", "collateral taken on every success path")
+		var bad []*ssa.BasicBlock
+		if len(take) > 0 {
+			bad = forwardAvoid(fn.Blocks[0], take, nil, func(b *ssa.BasicBlock) bool { return succ[b] })
+		}
+		if len(take) > 0 && bad == nil {
+			r.Discharge("T-booked", key, r.P.FuncPos(fn), "every success return of ShardPledge lies after a SendCoinsFromAccountToModule into the node escrow")
+		} else {
+			r.Violate("T-booked", key, r.P.FuncPos(fn), "ShardPledge can succeed (recording Shard.Pledge and raising TotalShardPledged) on a path that takes no coins from the provider and books no debt: when the shard ends the recorded collateral is paid out of escrow although it was never paid in", pathDesc(r, bad))
 		}
 	}
 }
@@ -581,6 +602,14 @@ func ruleAppendFresh(r *core.Run, prop string) {
 			for _, ins := range b.Instrs {
 				if ins == call.(ssa.Instruction) {
 					break
+				}
+				if hc, isCall := ins.(ssa.CallInstruction); isCall && setsFreshInHelper(r, hc, base, want) {
+					if b == call.Block() {
+						sameBlockBefore = true
+					} else {
+						blocks[b] = true
+					}
+					continue
 				}
 				st, ok := ins.(*ssa.Store)
 				if !ok {
@@ -732,4 +761,101 @@ func ruleAccumScope(r *core.Run, id string, fnNames ...string) {
 		}
 	}
 	r.Floor("aggregate_updates_in_loops", n, 1)
+}
+
+// setsFreshInHelper: the call hands the shard (pointer) to a module helper that stores the current height into
+// its CreatedAt on every path (a "start period" helper).
+func setsFreshInHelper(r *core.Run, c ssa.CallInstruction, base ssa.Value, want string) bool {
+	res := r.Resolver(c.Parent())
+	_, cs := res.CalleeName(c.Common())
+	if len(cs) != 1 || len(cs[0].Blocks) == 0 {
+		return false
+	}
+	h := cs[0]
+	args := c.Common().Args
+	off := 0
+	if c.Common().IsInvoke() {
+		off = 1
+	}
+	for i, a := range args {
+		if a != base || i+off >= len(h.Params) {
+			continue
+		}
+		p := h.Params[i+off]
+		hres := r.Resolver(h)
+		blocks := map[*ssa.BasicBlock]bool{}
+		for _, b := range h.Blocks {
+			for _, ins := range b.Instrs {
+				if st, ok := ins.(*ssa.Store); ok {
+					if fa, ok := st.Addr.(*ssa.FieldAddr); ok && fa.X == ssa.Value(p) && fieldNameT(fa.X.Type(), fa.Field) == "CreatedAt" && normT(hres.Of(st.Val).String()) == want {
+						blocks[b] = true
+					}
+				}
+			}
+		}
+		if len(blocks) > 0 && forwardAvoid(h.Blocks[0], blocks, nil, isReturnBlock) == nil {
+			return true
+		}
+	}
+	return false
+}
+
+// ruleRemoveAfterSettle (T-settle-then-remove): where the orders of a data model
+// are settled one after the other (a loop calling model.TerminateOrder), shard
+// records are removed only after that loop: an order and its renewal orders
+// list the same shard ids, and TerminateOrder releases a shard (capacity,
+// collateral, worker booking) only for the order whose period the shard is in —
+// a shard deleted while a later-settled order still lists it is never released.
+func ruleRemoveAfterSettle(r *core.Run, id string) {
+	n := 0
+	for _, fnName := range []string{"sao/keeper.msgServer.Terminate", "model/keeper.Keeper.UpdateMeta"} {
+		fn := r.Func(id, fnName)
+		if fn == nil {
+			continue
+		}
+		term := blocksCallingDeep(r, fn, "model/keeper.Keeper.TerminateOrder", 0)
+		for b := range blocksCallingDeep(r, fn, "sao/types.ModelKeeper.TerminateOrder", 0) {
+			term[b] = true
+		}
+		rem := blocksCallingDeep(r, fn, "order/keeper.Keeper.RemoveShard", 0)
+		for b := range blocksCallingDeep(r, fn, "model/types.OrderKeeper.RemoveShard", 0) {
+			rem[b] = true
+		}
+		for b := range blocksCallingDeep(r, fn, "sao/types.OrderKeeper.RemoveShard", 0) {
+			rem[b] = true
+		}
+		cnt := 0
+		for _, l := range cfgx.Loops(fn) {
+			has := false
+			for b := range term {
+				if l.Body[b] {
+					has = true
+				}
+			}
+			if !has {
+				continue
+			}
+			n++
+			cnt++
+			key := core.Key(id, fnName, fmt.Sprintf("settlement loop#%d", cnt))
+			var bad *ssa.BasicBlock
+			for b := range rem {
+				if l.Body[b] {
+					bad = b
+				}
+			}
+			if bad == nil {
+				r.Discharge(id, key, r.P.FuncPos(fn), "no shard record is removed inside the loop that settles the model's orders")
+			} else {
+				pos := r.P.FuncPos(fn)
+				for _, ins := range bad.Instrs {
+					if c, ok := ins.(ssa.CallInstruction); ok && c.Pos().IsValid() {
+						pos = r.P.Pos(c.Pos())
+					}
+				}
+				r.Violate(id, key, pos, fnName+" removes shard records inside the loop that settles the model's orders one by one: an order and its renewal orders list the same shards, the renewal order (settled first) skips them because they are still in the older order's period, and when the older order is settled the records are gone — their capacity, collateral and worker bookings are never released")
+			}
+		}
+	}
+	r.Floor("settlement_loops", n, 2)
 }
